@@ -1,8 +1,8 @@
 (* ======================================================================================
    Proof/Fun2CoreTyMain  -  the translation of a guarded term is well typed.
    [TW t]: for every scope G in which the guard [tg] holds of t, every continuation cont that is a
-   consumer of the type of t in G and stays one under the binders of t (invariant [KT], no capture
-   risk), the statement  wc t cont  is typed in G; the typed free variables of the output have declared
+   consumer of the type of t in G and stays one under the binders of t (invariant [KT]; no capture guard:
+   the repaired translation keeps a continuation outside of binders whose names it mentions), the statement  wc t cont  is typed in G; the typed free variables of the output have declared
    types and every definition lifted on the way (`share`) is well typed.
    [TC t]: the same for  cmp t ty  (a producer of the type of t).
    Helper lemmas for the nested traversals (arguments, clauses, coclauses) and for the default
@@ -68,7 +68,6 @@ Section Main.
     forall G S cont ty st s st',
       wc' t cont st = Ok (s, st') ->
       tg G t = true -> tyo t = Some ty -> tyd ty = true ->
-      shadowing_risk cd t S = false ->
       incl (fv_fterm t) (st_used_vars st) -> incl (bnd t) U -> incl S (st_used_vars st) -> incl U (st_used_vars st) ->
       KT cont ty G st S -> Hfind (st_lifted st') ->
       cs G s = None /\ (tyd_fv (fvt cont) -> tyd_fv (fvs s) /\ lifted_ok st st').
@@ -76,7 +75,6 @@ Section Main.
     forall G ty st c st',
       cmp' t ty st = Ok (c, st') ->
       tg G t = true -> tyo t = Some ty -> tyd ty = true ->
-      shadowing_risk cd t [] = false ->
       incl (fv_fterm t) (st_used_vars st) -> incl (bnd t) U -> incl U (st_used_vars st) ->
       Hfind (st_lifted st') ->
       ct G CPrd ty c = None /\ tyd_fv (fvt c) /\ lifted_ok st st'.
@@ -134,12 +132,11 @@ Section Main.
     forall G ty st c st',
       default_compile w ty st = Ok (c, st') ->
       tg G t = true -> tyo t = Some ty -> tyd ty = true ->
-      shadowing_risk cd t [] = false ->
       incl (fv_fterm t) (st_used_vars st) -> incl (bnd t) U -> incl U (st_used_vars st) ->
       Hfind (st_lifted st') ->
       ct G CPrd ty c = None /\ tyd_fv (fvt c) /\ lifted_ok st st'.
   Proof.
-    intros t w Hw HT G ty st c st' H Hg Hty Htd Hr Hfv Hbd HU Hf.
+    intros t w Hw HT G ty st c st' H Hg Hty Htd Hfv Hbd HU Hf.
     apply default_compile_inv in H. destruct H as [a [sta [s [Ha [Hs Hc]]]]]. subst c. rewrite Hw in Hs.
     destruct (fresh_in_vars_inv _ _ _ _ Ha) as [Hfresh [Hused [_ Hlift]]].
     set (ab := mkcb (new_id a) CCns ty).
@@ -165,21 +162,19 @@ Section Main.
     forall G sig st l st',
       subst_with (fun y => cmp' y) args st = Ok (l, st') ->
       tg_args G args sig = true ->
-      existsb (fun y => shadowing_risk cd y []) args = false ->
       incl (flat_map fv_fterm args) (st_used_vars st) -> incl (flat_map bnd args) U -> incl U (st_used_vars st) ->
       Hfind (st_lifted st') ->
       args_typed G l sig /\ tyd_fv (fva l) /\ lifted_ok st st'.
   Proof.
-    intros args H G. induction H as [|y r Hy Hr IH]; intros sig st l st' Hs Hg Hrk Hfv Hbd HU Hf.
+    intros args H G. induction H as [|y r Hy Hr IH]; intros sig st l st' Hs Hg Hfv Hbd HU Hf.
     - simpl in Hs. apply mret_inv in Hs. destruct Hs; subst. destruct sig; [|discriminate].
       split; [constructor|]. split; [intros b Hb'; apply fva_nil in Hb'; contradiction | apply lifted_ok_refl].
     - destruct sig as [|b sr]; [discriminate|]. rewrite tg_args_cons in Hg. apply andb_prop in Hg. destruct Hg as [Hg1 Hg2].
       apply subst_with_cons_inv in Hs. destruct Hs as [a [st1 [rest [Ha [Hrest Hl]]]]]. subst l.
-      simpl in Hrk. apply orb_false_elim in Hrk. destruct Hrk as [Hrk1 Hrk2].
       simpl in Hfv, Hbd.
       assert (Hgr1 : grows st st1) by (eapply arg_grows; exact Ha).
       assert (Hgr2 : grows st1 st') by (eapply args_grows; exact Hrest).
-      destruct (IH sr st1 rest st' Hrest Hg2 Hrk2) as [I1 [I2 I3]]; auto.
+      destruct (IH sr st1 rest st' Hrest Hg2) as [I1 [I2 I3]]; auto.
       { eapply incl_tran; [exact (incl_app_r _ _ _ _ Hfv) | apply used_grows; exact Hgr1]. }
       { exact (incl_app_r _ _ _ _ Hbd). }
       { eapply incl_tran; [exact HU | apply used_grows; exact Hgr1]. }
@@ -199,7 +194,7 @@ Section Main.
           apply has_ty_tyo in Hh. assert (Ec' : compile_ty ty0 = cbty b).
           { unfold tyo in Hh. rewrite Ety in Hh. simpl in Hh. injection Hh as Hh. exact Hh. }
           rewrite Ec' in Ec.
-          destruct (Hy G (cbty b) st c st1 Ec Hgy Hh Htd Hrk1) as [J1 [J2 J3]]; auto.
+          destruct (Hy G (cbty b) st c st1 Ec Hgy Hh Htd) as [J1 [J2 J3]]; auto.
           { exact (incl_app_l _ _ _ _ Hfv). }
           { exact (incl_app_l _ _ _ _ Hbd). }
           { eapply Hfind_grows; eassumption. }
@@ -244,7 +239,7 @@ Section Main.
     forall G S cont1 ty0 n xs st l st',
       clauses_with (fun b => wc' b) cont1 cls st = Ok (l, st') ->
       tg_clauses G (Some ty0) cls xs = true -> tyd (compile_ty ty0) = true ->
-      existsb (risk_cl cd S) cls = false ->
+      captures (flat_map cl_names cls) cont1 = false ->
       incl (flat_map fv_cl cls) (st_used_vars st) -> incl (flat_map cl_bnd cls) U ->
       incl S (st_used_vars st) -> incl U (st_used_vars st) ->
       KT cont1 (compile_ty ty0) G st S -> Hfind (st_lifted st') ->
@@ -265,13 +260,14 @@ Section Main.
       apply andb_prop in Hg1. destruct Hg1 as [Hg1 Hsame]. apply andb_prop in Hg1. destruct Hg1 as [Hg1 Hgb].
       apply andb_prop in Hg1. destruct Hg1 as [Hg1 Hnd]. apply andb_prop in Hg1. destruct Hg1 as [Hg1 Hpar].
       apply andb_prop in Hg1. destruct Hg1 as [Hnames Hid].
-      simpl in Hrk. apply orb_false_elim in Hrk. destruct Hrk as [Hrk1 Hrk2].
-      apply orb_false_elim in Hrk1. destruct Hrk1 as [Hint Hrb].
+      assert (Hrk1 : captures (fvars ctx) cont1 = false).
+      { eapply captures_incl; [exact Hrk|]. intros z Hz. simpl. apply in_or_app. left. exact Hz. }
+      assert (Hrk2 : captures (flat_map cl_names r) cont1 = false).
+      { eapply captures_incl; [exact Hrk|]. intros z Hz. simpl. apply in_or_app. right. exact Hz. }
       simpl in Hfv, Hbd. simpl in Hc.
       assert (Hgr1 : grows st st1) by (eapply wc_grows; exact Hbody).
       assert (Hgr2 : grows st1 st') by (eapply clauses_grows; exact Hrest).
       assert (HctxU : incl (fvars ctx) U) by (intros z Hz; apply Hbd; apply in_or_app; left; apply in_or_app; left; exact Hz).
-      assert (HctxS : forall v, In v (fvars ctx) -> ~ In v S) by (intros v Hv; eapply inter_nonempty_false; eassumption).
       assert (Hfvb : incl (fv_fterm body) (st_used_vars st)).
       { intros z Hz. destruct (in_dec string_dec z (fvars ctx)) as [Hi|Hi]; [apply HU; apply HctxU; exact Hi|].
         apply Hfv. apply in_or_app. left. apply remove_all_In. split; assumption. }
@@ -292,10 +288,13 @@ Section Main.
           intros z Hz. apply Hag. left. unfold cont_cl. apply remove_all_In. apply remove_all_In in Hz.
           destruct Hz as [Hz1 Hz2]. split; [apply in_or_app; left; exact Hz1 | exact Hz2].
         - intros z Hz. apply Hbd. apply in_or_app. left. apply in_or_app. right. exact Hz.
-        - eapply KT_shift; [exact HK|]. eapply agree_trans; [apply agree_ctx; assumption|].
-          intros y Hy. apply Hag. destruct Hy as [Hy|[Hy1 Hy2]].
-          + left. unfold cont_cl. apply remove_all_In. split; [apply in_or_app; right; exact Hy|].
-            intros Hin. exact (HctxS y Hin Hy).
+        - apply (KT_rebind D C defs U cont1 _ G _ st S (fvars ctx) HK Hrk1).
+          intros y Hy Hny. rewrite clookup_app.
+          assert (E : clookup (compile_ctx ctx) (new_id y) = None).
+          { apply clookup_none. rewrite cvars_compile_ctx. intros Hin. apply in_map_iff in Hin.
+            destruct Hin as [z [Ez Hz]]. apply new_id_inj in Ez. subst z. contradiction. }
+          rewrite E. apply Hag. destruct Hy as [Hy|[Hy1 Hy2]].
+          + left. unfold cont_cl. apply remove_all_In. split; [apply in_or_app; right; exact Hy | exact Hny].
           + right. split; [apply Hstf; apply (used_grows _ _ Hgr1); exact Hy1 | exact Hy2].
         - eapply Hfind_grows; eassumption. }
       split; [|split].
@@ -327,12 +326,11 @@ Section Main.
     forall G n xs st l st',
       coclauses_with (fun b => wc' b) cls st = Ok (l, st') ->
       tg_coclauses G cls xs = true ->
-      existsb (fun c => shadowing_risk cd (clause_body c) []) cls = false ->
       incl (flat_map fv_cl cls) (st_used_vars st) -> incl (flat_map cl_bnd cls) U -> incl U (st_used_vars st) ->
       Hfind (st_lifted st') ->
       cclauses_match CPrd n l xs = None /\ Forall (clause_typed G) l /\ tyd_fv (fvc l) /\ lifted_ok st st'.
   Proof.
-    intros cls H G n. induction H as [|c r Hc Hr IH]; intros xs st l st' Hs Hg Hrk Hfv Hbd HU Hf.
+    intros cls H G n. induction H as [|c r Hc Hr IH]; intros xs st l st' Hs Hg Hfv Hbd HU Hf.
     - simpl in Hs. apply mret_inv in Hs. destruct Hs; subst. destruct xs; [|discriminate].
       split; [reflexivity|]. split; [constructor|].
       split; [intros b Hb'; apply fvc_nil in Hb'; contradiction | apply lifted_ok_refl].
@@ -350,7 +348,6 @@ Section Main.
       apply has_ty_tyo in Hhas.
       assert (Ety' : compile_ty ty0 = cbty last).
       { unfold tyo in Hhas. rewrite Ety in Hhas. simpl in Hhas. injection Hhas as Hhas. exact Hhas. }
-      simpl in Hrk. apply orb_false_elim in Hrk. destruct Hrk as [Hrb Hrk2].
       simpl in Hfv, Hbd. simpl in Hc.
       destruct (fresh_in_vars_inv _ _ _ _ Hfr) as [Hfresh [Hused [_ Hlift]]].
       assert (Hgra : incl (st_used_vars st) (st_used_vars sta)) by (rewrite Hused; apply incl_tl; apply incl_refl).
@@ -369,7 +366,7 @@ Section Main.
         { apply clookup_none. rewrite cvars_compile_ctx. intros Hin. apply in_map_iff in Hin.
           destruct Hin as [y [Ey Hy]]. apply new_id_inj in Ey. subst y. contradiction. }
         rewrite E. simpl. cbn [cbvar ab]. rewrite ceq_id_refl. reflexivity. }
-      destruct (IH xr st1 rest st' Hrest Hg2 Hrk2) as [I1 [I2 [I3 I4]]]; auto.
+      destruct (IH xr st1 rest st' Hrest Hg2) as [I1 [I2 [I3 I4]]]; auto.
       { eapply incl_tran; [exact (incl_app_r _ _ _ _ Hfv)|]. eapply incl_tran; [exact Hgra | apply used_grows; exact Hgr1]. }
       { exact (incl_app_r _ _ _ _ Hbd). }
       { eapply incl_tran; [exact HU|]. eapply incl_tran; [exact Hgra | apply used_grows; exact Hgr1]. }
@@ -423,20 +420,20 @@ Section Main.
   (* ---------- operators (shared by compile and compile_with_cont) ---------- *)
   Lemma op_ok : forall a b, TC a -> TC b -> forall G o st a' st1 b' st',
     cmp' a CI64 st = Ok (a', st1) -> cmp' b CI64 st1 = Ok (b', st') ->
-    tg G (FOp a o b) = true -> shadowing_risk cd (FOp a o b) [] = false ->
+    tg G (FOp a o b) = true ->
     incl (fv_fterm (FOp a o b)) (st_used_vars st) -> incl (bnd (FOp a o b)) U -> incl U (st_used_vars st) ->
     Hfind (st_lifted st') ->
     ct G CPrd CI64 (COp a' (op_of o) b') = None /\ tyd_fv (fvt (COp a' (op_of o) b')) /\ lifted_ok st st'.
   Proof.
-    intros a b Ha Hb G o st a' st1 b' st' E1 E2 Hg Hrk Hfv Hbd HU Hf.
+    intros a b Ha Hb G o st a' st1 b' st' E1 E2 Hg Hfv Hbd HU Hf.
     rewrite tg_op in Hg. apply andb_prop in Hg. destruct Hg as [Hg Hh2]. apply andb_prop in Hg. destruct Hg as [Hg Hh1].
     apply andb_prop in Hg. destruct Hg as [Hg1 Hg2]. apply has_ty_tyo in Hh1. apply has_ty_tyo in Hh2.
-    simpl in Hrk. apply orb_false_elim in Hrk. destruct Hrk as [Hr1 Hr2]. simpl in Hfv, Hbd.
+    simpl in Hfv, Hbd.
     assert (Hgr1 : grows st st1) by (eapply cmp_grows; exact E1).
     assert (Hgr2 : grows st1 st') by (eapply cmp_grows; exact E2).
-    destruct (Ha G CI64 st a' st1 E1 Hg1 Hh1 eq_refl Hr1) as [A1 [A2 A3]]; auto.
+    destruct (Ha G CI64 st a' st1 E1 Hg1 Hh1 eq_refl) as [A1 [A2 A3]]; auto.
     { exact (incl_app_l _ _ _ _ Hfv). } { exact (incl_app_l _ _ _ _ Hbd). } { eapply Hfind_grows; eassumption. }
-    destruct (Hb G CI64 st1 b' st' E2 Hg2 Hh2 eq_refl Hr2) as [B1 [B2 B3]]; auto.
+    destruct (Hb G CI64 st1 b' st' E2 Hg2 Hh2 eq_refl) as [B1 [B2 B3]]; auto.
     { eapply incl_tran; [exact (incl_app_r _ _ _ _ Hfv) | apply used_grows; exact Hgr1]. }
     { exact (incl_app_r _ _ _ _ Hbd). }
     { eapply incl_tran; [exact HU | apply used_grows; exact Hgr1]. }
@@ -454,7 +451,7 @@ Section Main.
 
   Lemma tw_var : forall v ty chi, TW (FVar v ty chi).
   Proof.
-    intros v ty chi G S cont t st s st' H Hg Hty Htd Hrk Hfv Hbd HS HU HK Hf. rewrite wc_unfold in H.
+    intros v ty chi G S cont t st s st' H Hg Hty Htd Hfv Hbd HS HU HK Hf. rewrite wc_unfold in H.
     apply wc_var_inv in H. destruct H as [ty0 [-> [-> ->]]].
     apply tyo_var in Hty. destruct Hty as [ty1 [E ->]]. injection E as <-.
     rewrite tg_var in Hg. pose proof Hg as Hv.
@@ -466,7 +463,7 @@ Section Main.
   Qed.
   Lemma tc_var : forall v ty chi, TC (FVar v ty chi).
   Proof.
-    intros v ty chi G t st c st' H Hg Hty Htd Hrk Hfv Hbd HU Hf. rewrite cmp_unfold in H.
+    intros v ty chi G t st c st' H Hg Hty Htd Hfv Hbd HU Hf. rewrite cmp_unfold in H.
     apply cmp_var_inv in H. destruct H as [ty0 [-> [-> ->]]].
     apply tyo_var in Hty. destruct Hty as [ty1 [E ->]]. injection E as <-.
     rewrite tg_var in Hg. pose proof Hg as Hv.
@@ -476,7 +473,7 @@ Section Main.
 
   Lemma tw_lit : forall n, TW (FLit n).
   Proof.
-    intros n G S cont t st s st' H Hg Hty Htd Hrk Hfv Hbd HS HU HK Hf. rewrite wc_unfold in H.
+    intros n G S cont t st s st' H Hg Hty Htd Hfv Hbd HS HU HK Hf. rewrite wc_unfold in H.
     unfold wc_lit in H. apply mret_inv in H. destruct H as [-> ->]. unfold tyo in Hty. simpl in Hty. injection Hty as <-.
     split.
     - apply cs_cut. split; [reflexivity|]. split; [apply ct_lit; auto | eapply KT_here; exact HK].
@@ -485,21 +482,21 @@ Section Main.
   Qed.
   Lemma tc_lit : forall n, TC (FLit n).
   Proof.
-    intros n G t st c st' H Hg Hty Htd Hrk Hfv Hbd HU Hf. rewrite cmp_unfold in H.
+    intros n G t st c st' H Hg Hty Htd Hfv Hbd HU Hf. rewrite cmp_unfold in H.
     unfold cmp_lit in H. apply mret_inv in H. destruct H as [-> ->]. unfold tyo in Hty. simpl in Hty. injection Hty as <-.
     split; [apply ct_lit; auto|]. split; [intros b Hb; apply fvt_lit in Hb; contradiction | apply lifted_ok_refl].
   Qed.
 
   Lemma tc_op : forall a o b, TC a -> TC b -> TC (FOp a o b).
   Proof.
-    intros a o b Ha Hb G t st c st' H Hg Hty Htd Hrk Hfv Hbd HU Hf. rewrite cmp_unfold in H.
+    intros a o b Ha Hb G t st c st' H Hg Hty Htd Hfv Hbd HU Hf. rewrite cmp_unfold in H.
     apply cmp_op_inv in H. destruct H as [a' [st1 [b' [E1 [E2 ->]]]]].
     unfold tyo in Hty. simpl in Hty. injection Hty as <-.
-    exact (op_ok a b Ha Hb G o st a' st1 b' st' E1 E2 Hg Hrk Hfv Hbd HU Hf).
+    exact (op_ok a b Ha Hb G o st a' st1 b' st' E1 E2 Hg Hfv Hbd HU Hf).
   Qed.
   Lemma tw_op : forall a o b, TC a -> TC b -> TW (FOp a o b).
   Proof.
-    intros a o b Ha Hb G S cont t st s st' H Hg Hty Htd Hrk Hfv Hbd HS HU HK Hf. rewrite wc_unfold in H.
+    intros a o b Ha Hb G S cont t st s st' H Hg Hty Htd Hfv Hbd HS HU HK Hf. rewrite wc_unfold in H.
     apply wc_op_inv in H. destruct H as [a' [st1 [b' [E1 [E2 ->]]]]].
     unfold tyo in Hty. simpl in Hty. injection Hty as <-.
     destruct (op_ok a b Ha Hb G o st a' st1 b' st' E1 E2 Hg) as [O1 [O2 O3]]; auto.
@@ -510,7 +507,7 @@ Section Main.
 
   Lemma tw_ifc : forall so a b t1 t2 ty, TC a -> opt_P TC b -> TW t1 -> TW t2 -> TW (FIfC so a b t1 t2 ty).
   Proof.
-    intros so a b t1 t2 ty Ha Hb H1 H2 G S cont t st s st' H Hg Hty Htd Hrk Hfv Hbd HS HU HK Hf. rewrite wc_unfold in H.
+    intros so a b t1 t2 ty Ha Hb H1 H2 G S cont t st s st' H Hg Hty Htd Hfv Hbd HS HU HK Hf. rewrite wc_unfold in H.
     apply wc_ifc_inv in H.
     destruct H as [cont1 [st0 [a' [sta [b' [stb [t' [stt [e' [Hsh [Ea [Eb [Et [Ee ->]]]]]]]]]]]]]].
     rewrite tg_ifc in Hg.
@@ -520,8 +517,6 @@ Section Main.
     apply andb_prop in Hg. destruct Hg as [Hga Hha]. apply has_ty_tyo in Hha.
     unfold tyo in Hty. simpl in Hty. apply tyo_ann in Hty. destruct Hty as [ty0 [-> ->]].
     simpl in Hs1, Hs2. apply has_ty_tyo in Hs1. apply has_ty_tyo in Hs2.
-    simpl in Hrk. apply orb_false_elim in Hrk. destruct Hrk as [Hrk Hr2]. apply orb_false_elim in Hrk. destruct Hrk as [Hrk Hr1].
-    apply orb_false_elim in Hrk. destruct Hrk as [Hra Hrb].
     simpl in Hfv, Hbd.
     assert (Gb : grows sta stb).
     { destruct b as [b0|]; [destruct Eb as [b1 [Eb _]]; eapply cmp_grows; exact Eb | destruct Eb as [_ ->]; apply grows_refl]. }
@@ -535,7 +530,7 @@ Section Main.
     assert (Usta : incl (st_used_vars st) (st_used_vars sta)) by (eapply incl_tran; [exact Ust0 | apply used_grows; exact Ga]).
     assert (Ustb : incl (st_used_vars st) (st_used_vars stb)) by (eapply incl_tran; [exact Usta | apply used_grows; exact Gb]).
     assert (Ustt : incl (st_used_vars st) (st_used_vars stt)) by (eapply incl_tran; [exact Ustb | apply used_grows; exact Gt]).
-    destruct (Ha G CI64 st0 a' sta Ea Hga Hha eq_refl Hra) as [A1 [A2 A3]]; auto.
+    destruct (Ha G CI64 st0 a' sta Ea Hga Hha eq_refl) as [A1 [A2 A3]]; auto.
     { eapply incl_tran; [exact (incl_app_l _ _ _ _ Hfv) | exact Ust0]. }
     { exact (incl_app_l _ _ _ _ Hbd). } { eapply incl_tran; [exact HU | exact Ust0]. }
     { eapply Hfind_grows; [|exact Hf]. eapply grows_trans; [exact Gb|]. eapply grows_trans; eassumption. }
@@ -543,7 +538,7 @@ Section Main.
                  tyd_fv (match b' with Some b1 => fvt b1 | None => [] end) /\ lifted_ok sta stb).
     { destruct b as [b0|].
       - destruct Eb as [b1 [Eb ->]]. apply andb_prop in Hgb. destruct Hgb as [Hgb Hhb]. apply has_ty_tyo in Hhb.
-        simpl in Hb. apply (Hb G CI64 sta b1 stb Eb Hgb Hhb eq_refl Hrb).
+        simpl in Hb. apply (Hb G CI64 sta b1 stb Eb Hgb Hhb eq_refl).
         + eapply incl_tran; [|exact Usta]. eapply incl_tran; [|exact (incl_app_r _ _ _ _ Hfv)]. apply incl_appl. apply incl_refl.
         + eapply incl_tran; [|exact (incl_app_r _ _ _ _ Hbd)]. apply incl_appl. apply incl_refl.
         + eapply incl_tran; [exact HU | exact Usta].
@@ -554,12 +549,12 @@ Section Main.
     { eapply incl_tran; [|exact (incl_app_r _ _ _ _ Hfv)]. apply incl_appr. apply incl_refl. }
     assert (Hbdr : incl (bnd t1 ++ bnd t2) U).
     { eapply incl_tran; [|exact (incl_app_r _ _ _ _ Hbd)]. apply incl_appr. apply incl_refl. }
-    destruct (H1 G S cont1 (compile_ty ty0) stb t' stt Et Hg1 Hs1 Htd Hr1) as [T1 T2]; auto.
+    destruct (H1 G S cont1 (compile_ty ty0) stb t' stt Et Hg1 Hs1 Htd) as [T1 T2]; auto.
     { eapply incl_tran; [exact (incl_app_l _ _ _ _ Hfvr) | exact Ustb]. }
     { exact (incl_app_l _ _ _ _ Hbdr). } { eapply incl_tran; [exact HS | exact Ustb]. } { eapply incl_tran; [exact HU | exact Ustb]. }
     { eapply KT_mono; [exact HK1 | | apply incl_refl]. eapply incl_tran; [apply used_grows; exact Ga | apply used_grows; exact Gb]. }
     { eapply Hfind_grows; eassumption. }
-    destruct (H2 G S cont1 (compile_ty ty0) stt e' st' Ee Hg2 Hs2 Htd Hr2) as [E1 E2]; auto.
+    destruct (H2 G S cont1 (compile_ty ty0) stt e' st' Ee Hg2 Hs2 Htd) as [E1 E2]; auto.
     { eapply incl_tran; [exact (incl_app_r _ _ _ _ Hfvr) | exact Ustt]. }
     { exact (incl_app_r _ _ _ _ Hbdr). } { eapply incl_tran; [exact HS | exact Ustt]. } { eapply incl_tran; [exact HU | exact Ustt]. }
     { eapply KT_mono; [exact HK1 | | apply incl_refl]. eapply incl_tran; [apply used_grows; exact Ga|].
@@ -578,18 +573,18 @@ Section Main.
 
   Lemma tw_print : forall nl a next ty, TC a -> TW next -> TW (FPrint nl a next ty).
   Proof.
-    intros nl a next ty Ha Hn G S cont t st s st' H Hg Hty Htd Hrk Hfv Hbd HS HU HK Hf. rewrite wc_unfold in H.
+    intros nl a next ty Ha Hn G S cont t st s st' H Hg Hty Htd Hfv Hbd HS HU HK Hf. rewrite wc_unfold in H.
     apply wc_print_inv in H. destruct H as [a' [st1 [next' [Ea [En ->]]]]].
     rewrite tg_print in Hg. apply andb_prop in Hg. destruct Hg as [Hg Hsn]. apply andb_prop in Hg. destruct Hg as [Hg Hgn].
     apply andb_prop in Hg. destruct Hg as [Hga Hha]. apply has_ty_tyo in Hha.
     unfold tyo in Hty. simpl in Hty. apply tyo_ann in Hty. destruct Hty as [ty0 [-> ->]].
     simpl in Hsn. apply has_ty_tyo in Hsn.
-    simpl in Hrk. apply orb_false_elim in Hrk. destruct Hrk as [Hra Hrn]. simpl in Hfv, Hbd.
+    simpl in Hfv, Hbd.
     assert (Ga : grows st st1) by (eapply cmp_grows; exact Ea).
     assert (Gn : grows st1 st') by (eapply wc_grows; exact En).
-    destruct (Ha G CI64 st a' st1 Ea Hga Hha eq_refl Hra) as [A1 [A2 A3]]; auto.
+    destruct (Ha G CI64 st a' st1 Ea Hga Hha eq_refl) as [A1 [A2 A3]]; auto.
     { exact (incl_app_l _ _ _ _ Hfv). } { exact (incl_app_l _ _ _ _ Hbd). } { eapply Hfind_grows; eassumption. }
-    destruct (Hn G S cont (compile_ty ty0) st1 next' st' En Hgn Hsn Htd Hrn) as [N1 N2]; auto.
+    destruct (Hn G S cont (compile_ty ty0) st1 next' st' En Hgn Hsn Htd) as [N1 N2]; auto.
     { eapply incl_tran; [exact (incl_app_r _ _ _ _ Hfv) | apply used_grows; exact Ga]. }
     { exact (incl_app_r _ _ _ _ Hbd). }
     { eapply incl_tran; [exact HS | apply used_grows; exact Ga]. } { eapply incl_tran; [exact HU | apply used_grows; exact Ga]. }
@@ -600,15 +595,59 @@ Section Main.
       intros bb Hbb. apply fvs_print in Hbb. destruct Hbb as [Hbb|Hbb]; [apply A2 | apply N3]; exact Hbb.
   Qed.
 
-  Lemma tw_let : forall v vty bound body ty, TW bound -> TC bound -> TW body -> TW (FLet v vty bound body ty).
+  (* ---------- terms whose continuation is placed under binders (let, case): the repaired translation
+     [guard_capture] first checks that no binder is the name of a free variable of the continuation, and otherwise
+     names the continuation: < mu a. w(a) | cont >.  [TWin]: the statement of TW for the inner translation w, under
+     the hypothesis the check establishes; [tw_guard]: TW for the guarded translation. ---------- *)
+  Definition TWin (t : fterm) (binders : list fname) (w : cterm -> M cstmt) : Prop :=
+    forall G S cont ty st s st',
+      w cont st = Ok (s, st') -> captures binders cont = false ->
+      tg G t = true -> tyo t = Some ty -> tyd ty = true ->
+      incl (fv_fterm t) (st_used_vars st) -> incl (bnd t) U -> incl S (st_used_vars st) -> incl U (st_used_vars st) ->
+      KT cont ty G st S -> Hfind (st_lifted st') ->
+      cs G s = None /\ (tyd_fv (fvt cont) -> tyd_fv (fvs s) /\ lifted_ok st st').
+
+  Lemma tw_guard : forall t binders (w : cterm -> M cstmt) lty,
+    (forall cont, wc' t cont = guard_capture false binders w lty cont) -> fterm_type t = lty ->
+    TWin t binders w -> TW t.
   Proof.
-    intros v vty bound body ty Hbw Hbc Hbo G S cont t st s st' H Hg Hty Htd Hrk Hfv Hbd HS HU HK Hf. rewrite wc_unfold in H.
+    intros t binders w lty Hw Hlty Hin G S cont ty st s st' H Hg Hty Htd Hfv Hbd HS HU HK Hf.
+    rewrite Hw in H. apply guard_capture_inv in H.
+    destruct H as [[Hc H]|[Hc [ty0 [a [sta [s0 [Ety [Ha [Hc' [H ->]]]]]]]]]].
+    - apply (Hin G S cont ty st s st' H Hc); assumption.
+    - assert (Ety0 : ty = compile_ty ty0).
+      { unfold tyo in Hty. rewrite Hlty, Ety in Hty. simpl in Hty. injection Hty as Hty. symmetry. exact Hty. }
+      subst ty.
+      destruct (fresh_in_vars_inv _ _ _ _ Ha) as [Hfresh [Hused [_ Hlift]]].
+      set (ab := mkcb (new_id a) CCns (compile_ty ty0)).
+      assert (HnU : ~ In a U) by (intros Hi; apply Hfresh; apply HU; exact Hi).
+      assert (Hgen : gen sta a) by (split; [rewrite Hused; left; reflexivity | exact HnU]).
+      destruct (Hin (ab :: G) [] (CXVar CCns (new_id a) (compile_ty ty0)) (compile_ty ty0) sta s0 st' H Hc') as [H1 H2]; auto.
+      + rewrite <- Hg. apply tg_ext. intros x Hx. rewrite clookup_cons. cbn [cbvar ab].
+        assert (Hne : a <> x) by (intros ->; apply Hfresh; apply Hfv; exact Hx).
+        rewrite (new_id_neq _ _ Hne). reflexivity.
+      + rewrite Hused. apply incl_tl. exact Hfv.
+      + intros x [].
+      + rewrite Hused. apply incl_tl. exact HU.
+      + intros G' Hag. apply ct_var. repeat split. rewrite (Hag a (or_intror Hgen)).
+        rewrite clookup_cons. cbn [cbvar ab]. rewrite ceq_id_refl. reflexivity.
+      + destruct (H2 (tyd_fv_var _ _ _ Htd)) as [H3 H4]. split.
+        * apply cs_cut. split; [exact Htd|]. split; [apply ct_mu; repeat split; exact H1 | eapply KT_here; exact HK].
+        * intros Hcf. split.
+          -- intros b Hb. apply fvs_cut in Hb. destruct Hb as [Hb|Hb]; [|apply Hcf; exact Hb].
+             apply fvt_mu_1 in Hb. apply H3. exact Hb.
+          -- intros Hall. apply H4. rewrite Hlift. exact Hall.
+  Qed.
+
+  Lemma tw_let_in : forall v vty bound body ty, TW bound -> TC bound -> TW body ->
+    TWin (FLet v vty bound body ty) [v] (wc_let C v vty (cmp' bound) (wc' bound) (wc' body)).
+  Proof.
+    intros v vty bound body ty Hbw Hbc Hbo G S cont t st s st' H Hcap Hg Hty Htd Hfv Hbd HS HU HK Hf.
     rewrite tg_let in Hg. apply andb_prop in Hg. destruct Hg as [Hg Hsb]. apply andb_prop in Hg. destruct Hg as [Hg Hgbo].
     apply andb_prop in Hg. destruct Hg as [Hg Htdv]. apply andb_prop in Hg. destruct Hg as [Hgb Hhb]. apply has_ty_tyo in Hhb.
     unfold tyo in Hty. simpl in Hty. apply tyo_ann in Hty. destruct Hty as [ty0 [-> ->]].
     simpl in Hsb. apply has_ty_tyo in Hsb.
-    simpl in Hrk. apply orb_false_elim in Hrk. destruct Hrk as [Hrk Hrb]. apply orb_false_elim in Hrk. destruct Hrk as [HvS Hrbo].
-    apply mem_false_not_In in HvS. simpl in Hfv, Hbd.
+    simpl in Hfv, Hbd.
     assert (HvU : In v U) by (apply Hbd; left; reflexivity).
     set (vb := mkcb (new_id v) CPrd (compile_ty vty)).
     set (S' := remove_all [v] (fv_fterm body ++ S)).
@@ -625,20 +664,20 @@ Section Main.
       - intros z Hz. destruct (string_dec z v) as [->|Hne]; [apply HU; exact HvU|].
         apply Hfv. apply in_or_app. right. apply remove_all_In. split; [exact Hz|]. intros [E|[]]. congruence.
       - intros z Hz. apply Hbd. right. apply in_or_app. right. exact Hz.
-      - eapply KT_shift; [exact HK|]. eapply agree_trans.
-        + apply (agree_cons U st S vb v G'); [reflexivity | exact HvS | intros [_ Hn]; contradiction].
-        + intros y Hy. apply Hag. destruct Hy as [Hy|[Hy1 Hy2]].
-          * left. unfold S'. apply remove_all_In. split; [apply in_or_app; right; exact Hy|]. intros [E|[]]. subst y. contradiction.
-          * right. split; [apply Hstf; apply (used_grows _ _ Gb); exact Hy1 | exact Hy2]. }
+      - apply (KT_rebind D C defs U cont _ G _ st S [v] HK Hcap).
+        intros y Hy Hny. rewrite clookup_cons. cbn [cbvar vb].
+        assert (Hne : v <> y) by (intros ->; apply Hny; left; reflexivity).
+        rewrite (new_id_neq _ _ Hne). apply Hag. destruct Hy as [Hy|[Hy1 Hy2]].
+        + left. unfold S'. apply remove_all_In. split; [apply in_or_app; right; exact Hy | exact Hny].
+        + right. split; [apply Hstf; apply (used_grows _ _ Gb); exact Hy1 | exact Hy2]. }
     destruct (ty_is_codata C (compile_ty vty)) eqn:Ecd.
     - (* by name: the bound term is compiled on its own *)
       apply wc_let_inv_codata in H; [|exact Ecd]. destruct H as [body' [st1 [pb [Eb [Ep ->]]]]].
-      rewrite codata_eq in Ecd. rewrite Ecd in Hrb.
       assert (Gb : grows st st1) by (eapply wc_grows; exact Eb).
       assert (Gp : grows st1 st') by (eapply cmp_grows; exact Ep).
       destruct (Hbody body' st1 Eb G st1 (incl_refl _)) as [B1 B2].
       { eapply Hfind_grows; eassumption. } { apply agree_refl. }
-      destruct (Hbc G (compile_ty vty) st1 pb st' Ep Hgb Hhb Htdv Hrb) as [P1 [P2 P3]]; auto.
+      destruct (Hbc G (compile_ty vty) st1 pb st' Ep Hgb Hhb Htdv) as [P1 [P2 P3]]; auto.
       { eapply incl_tran; [exact (incl_app_l _ _ _ _ Hfv) | apply used_grows; exact Gb]. }
       { intros z Hz. apply Hbd. right. apply in_or_app. left. exact Hz. }
       { eapply incl_tran; [exact HU | apply used_grows; exact Gb]. }
@@ -649,11 +688,10 @@ Section Main.
         apply fvt_mu_1 in Hbb. apply B3. exact Hbb.
     - (* by value: the bound term is compiled with the continuation mu~ v. body *)
       apply wc_let_inv in H; [|exact Ecd]. destruct H as [body' [st1 [Eb Ebd]]].
-      rewrite codata_eq in Ecd. rewrite Ecd in Hrb. fold S' in Hrb.
       assert (Gb : grows st st1) by (eapply wc_grows; exact Eb).
       assert (Gp : grows st1 st') by (eapply wc_grows; exact Ebd).
       assert (Hf1 : Hfind (st_lifted st1)) by (eapply Hfind_grows; eassumption).
-      destruct (Hbw G S' (CMu CCns (new_id v) body' (compile_ty vty)) (compile_ty vty) st1 s st' Ebd Hgb Hhb Htdv Hrb)
+      destruct (Hbw G S' (CMu CCns (new_id v) body' (compile_ty vty)) (compile_ty vty) st1 s st' Ebd Hgb Hhb Htdv)
         as [W1 W2]; auto.
       { eapply incl_tran; [exact (incl_app_l _ _ _ _ Hfv) | apply used_grows; exact Gb]. }
       { intros z Hz. apply Hbd. right. apply in_or_app. left. exact Hz. }
@@ -669,20 +707,28 @@ Section Main.
       destruct (W2 Hcm) as [W3 W4]. split; [exact W3 | eapply lifted_ok_trans; eassumption].
   Qed.
 
+  Lemma tw_let : forall v vty bound body ty, TW bound -> TC bound -> TW body -> TW (FLet v vty bound body ty).
+  Proof.
+    intros v vty bound body ty Hbw Hbc Hbo.
+    eapply tw_guard; [| |apply tw_let_in; assumption].
+    - intros cont. rewrite wc_unfold. reflexivity.
+    - reflexivity.
+  Qed.
+
   Lemma args_typed_snoc : forall G l sig a b, args_typed G l sig -> arg_typed D C defs G a b -> args_typed G (l ++ [a]) (sig ++ [b]).
   Proof. intros G l sig a b H1 H2. apply Forall2_app; [exact H1 | constructor; [exact H2 | constructor]]. Qed.
 
   Lemma tw_call : forall f args ret, Forall TC args -> TW (FCall f args ret).
   Proof.
-    intros f args ret Ha G S cont t st s st' H Hg Hty Htd Hrk Hfv Hbd HS HU HK Hf. rewrite wc_unfold in H.
+    intros f args ret Ha G S cont t st s st' H Hg Hty Htd Hfv Hbd HS HU HK Hf. rewrite wc_unfold in H.
     apply wc_call_inv in H. destruct H as [args' [ret0 [Es [-> ->]]]].
     rewrite tg_call in Hg. apply andb_prop in Hg. destruct Hg as [Hnm Hg]. apply negb_true_iff in Hnm. apply String.eqb_neq in Hnm.
     destruct (ffind_def p f) as [d|] eqn:Ed; [|discriminate].
     apply andb_prop in Hg. destruct Hg as [Hg Htdr]. apply andb_prop in Hg. destruct Hg as [Hga Hret]. apply ceq_ty in Hret.
     unfold tyo in Hty. simpl in Hty. injection Hty as <-.
-    rewrite risk_call in Hrk. rewrite fv_call in Hfv. simpl in Hbd.
+    rewrite fv_call in Hfv. simpl in Hbd.
     destruct (Hcallee f d Ed Hnm) as [a [body Hfd]].
-    destruct (tw_args args Ha G _ st args' st' Es Hga Hrk) as [A1 [A2 A3]]; auto.
+    destruct (tw_args args Ha G _ st args' st' Es Hga) as [A1 [A2 A3]]; auto.
     split.
     - apply cs_call. split; [exact Htd|]. eexists. split; [exact Hfd|]. cbn [cdctx].
       apply args_typed_snoc; [exact A1|]. unfold arg_typed. cbn [cbchi cbty]. rewrite <- Hret. eapply KT_here. exact HK.
@@ -694,33 +740,31 @@ Section Main.
   Lemma ctor_ok : forall x args ty, Forall TC args -> forall G t st args' st',
     subst_with (fun y => cmp' y) args st = Ok (args', st') ->
     tg G (FCtor x args ty) = true -> tyo (FCtor x args ty) = Some t ->
-    shadowing_risk cd (FCtor x args ty) [] = false ->
     incl (fv_fterm (FCtor x args ty)) (st_used_vars st) -> incl (bnd (FCtor x args ty)) U -> incl U (st_used_vars st) ->
     Hfind (st_lifted st') ->
     ct G CPrd t (CXtor CPrd (new_id x) args' t) = None /\ tyd t = true /\ tyd_fv (fva args') /\ lifted_ok st st'.
   Proof.
-    intros x args ty Ha G t st args' st' Es Hg Hty Hrk Hfv Hbd HU Hf.
+    intros x args ty Ha G t st args' st' Es Hg Hty Hfv Hbd HU Hf.
     rewrite tg_ctor, Hty in Hg. destruct t as [|n]; [discriminate|].
     destruct (find_decl D n) as [d|] eqn:Ed; [|discriminate]. destruct (find_cxtor d (new_id x)) as [sg|] eqn:Esg; [|discriminate].
-    rewrite risk_ctor in Hrk. rewrite fv_ctor in Hfv. simpl in Hbd.
-    destruct (tw_args args Ha G _ st args' st' Es Hg Hrk) as [A1 [A2 A3]]; auto.
+    rewrite fv_ctor in Hfv. simpl in Hbd.
+    destruct (tw_args args Ha G _ st args' st' Es Hg) as [A1 [A2 A3]]; auto.
     split; [|split; [eapply find_data_tyd; exact Ed | split; assumption]].
     apply ct_xtor. repeat split. exists n, d, sg. repeat split; assumption.
   Qed.
   Lemma tc_ctor : forall x args ty, Forall TC args -> TC (FCtor x args ty).
   Proof.
-    intros x args ty Ha G t st c st' H Hg Hty Htd Hrk Hfv Hbd HU Hf. rewrite cmp_unfold in H.
+    intros x args ty Ha G t st c st' H Hg Hty Htd Hfv Hbd HU Hf. rewrite cmp_unfold in H.
     apply cmp_ctor_inv in H. destruct H as [args' [ty0 [Es [-> ->]]]].
     pose proof Hty as Hty'. unfold tyo in Hty'. simpl in Hty'. injection Hty' as <-.
-    destruct (ctor_ok x args (Some ty0) Ha G _ st args' st' Es Hg Hty Hrk) as [C1 [_ [C3 C4]]]; auto.
+    destruct (ctor_ok x args (Some ty0) Ha G _ st args' st' Es Hg Hty) as [C1 [_ [C3 C4]]]; auto.
   Qed.
   Lemma tw_ctor : forall x args ty, Forall TC args -> TW (FCtor x args ty).
   Proof.
-    intros x args ty Ha G S cont t st s st' H Hg Hty Htd Hrk Hfv Hbd HS HU HK Hf. rewrite wc_unfold in H.
+    intros x args ty Ha G S cont t st s st' H Hg Hty Htd Hfv Hbd HS HU HK Hf. rewrite wc_unfold in H.
     apply wc_ctor_inv in H. destruct H as [args' [ty0 [Es [-> ->]]]].
     pose proof Hty as Hty'. unfold tyo in Hty'. simpl in Hty'. injection Hty' as <-.
-    rewrite risk_ctor in Hrk. rewrite <- (risk_ctor cd x args (Some ty0) []) in Hrk.
-    destruct (ctor_ok x args (Some ty0) Ha G _ st args' st' Es Hg Hty Hrk) as [C1 [_ [C3 C4]]]; auto.
+    destruct (ctor_ok x args (Some ty0) Ha G _ st args' st' Es Hg Hty) as [C1 [_ [C3 C4]]]; auto.
     split.
     - apply cs_cut. split; [exact Htd|]. split; [exact C1 | eapply KT_here; exact HK].
     - intros Hc. split; [|exact C4]. intros bb Hbb. apply fvs_cut in Hbb. destruct Hbb as [Hbb|Hbb]; [|apply Hc; exact Hbb].
